@@ -1,10 +1,429 @@
-//! C39: export -> snapshot -> regenesis round trip (filled in below).
-use vcommon::{Rng, T};
+//! C39: the real `Exporter::write_full_snapshot` -> `SnapshotReader::open_w_config` ->
+//! `SnapshotImporter::import` round trip, JSON and parquet.
+//!
+//! input  (enc ge gi latest da (coins msgs blobs code utxo state assets ptx mdata mmeta) seed)
+//!   enc 0 JSON / 1 parquet; ge = group size of the exporter; gi = json group size of the
+//!   reader; latest = height of the last block of the exported chain (blocks 0..=latest exist);
+//!   da = its DA height; tables = lists of (key aux): key = index of the entry (contract state
+//!   and balances: contract * 2^32 + index), aux = tx-pointer height (coins, contract UTXOs) /
+//!   DA height (messages) / 0.  mdata/mmeta list the rows of the block Merkle tables by rank.
+//!   Values (owners, amounts, payloads, code, slot values ...) come from the seed.
+//! output (ok dst (height da) digests_ok ((column equal) ...))
+//!   ok = export, read and import succeeded; dst = the same tables read from the new database;
+//!   (height da) = last block data read back from the snapshot; digests_ok = every compared
+//!   column has the same digest before and after (JSON: the 7 state columns; parquet: also
+//!   processed transactions, block Merkle data/metadata and the off-chain TransactionStatuses,
+//!   OwnedTransactions, SpentMessages); the last list reports digest equality of every
+//!   on-chain column (id) and off-chain column (1000 + id).
+use crate::{base_asset, temp_dir};
+use fuel_core::{
+    combined_database::{CombinedDatabase, CombinedGenesisDatabase},
+    database::{
+        database_description::{off_chain::OffChain, on_chain::OnChain, DatabaseDescription},
+        Database, GenesisDatabase,
+    },
+    fuel_core_graphql_api::storage::{
+        messages::SpentMessages,
+        transactions::{OwnedTransactionIndexKey, OwnedTransactions, TransactionStatuses},
+    },
+    service::genesis::{verif_hooks::SnapshotImporter, Exporter, NotifyCancel},
+};
+use fuel_core_chain_config::{ChainConfig, SnapshotMetadata, SnapshotReader, SnapshotWriter, ZstdCompressionLevel};
+use fuel_core_services::StateWatcher;
+use fuel_core_storage::{
+    iter::{IterDirection, IterableStore, IteratorOverTable},
+    kv_store::StorageColumn,
+    tables::{
+        merkle::{FuelBlockMerkleData, FuelBlockMerkleMetadata},
+        Coins, ContractsAssets, ContractsLatestUtxo, ContractsRawCode, ContractsState, FuelBlocks, Messages,
+        ProcessedTransactions, SealedBlockConsensus,
+    },
+    transactional::WriteTransaction,
+    ContractsAssetKey, ContractsStateKey, StorageAsMut,
+};
+use fuel_core_types::{
+    blockchain::{
+        block::Block,
+        consensus::{Consensus, Genesis},
+        header::{ApplicationHeader, ConsensusHeader, PartialBlockHeader},
+        primitives::{DaBlockHeight, Empty},
+    },
+    entities::{
+        coins::coin::{CompressedCoin, CompressedCoinV1},
+        contract::{ContractUtxoInfo, ContractUtxoInfoV1},
+        relayer::message::{Message, MessageV1},
+    },
+    fuel_crypto::Hasher,
+    fuel_tx::{AssetId, TxPointer, UtxoId},
+    fuel_types::{Address, BlobId, BlockHeight, Bytes32, ContractId, Nonce},
+    fuel_vm::BlobData,
+    services::transaction_status::TransactionExecutionStatus,
+    tai64::Tai64,
+};
+use std::{collections::HashMap, sync::OnceLock};
+use vcommon::{catch, Rng, T};
 
-pub fn gen_c39(_rng: &mut Rng, _n: u64, _tier: &str) -> Vec<T> {
-    vec![]
+type Table = Vec<(u64, u64)>;
+
+#[derive(Clone)]
+struct Never;
+impl NotifyCancel for Never {
+    async fn wait_until_cancelled(&self) -> anyhow::Result<()> {
+        std::future::pending::<()>().await;
+        Ok(())
+    }
+    fn is_cancelled(&self) -> bool {
+        false
+    }
 }
 
-pub fn run_c39(_input: &T) -> T {
-    T::l(vec![])
+fn runtime() -> &'static tokio::runtime::Runtime {
+    static RT: OnceLock<tokio::runtime::Runtime> = OnceLock::new();
+    RT.get_or_init(|| {
+        tokio::runtime::Builder::new_multi_thread().worker_threads(2).enable_all().build().expect("runtime")
+    })
+}
+
+// keys: tag byte, index (big endian), then bytes derived from the index: key order = index order
+fn key(tag: u8, i: u64) -> [u8; 32] {
+    let mut b = [0u8; 32];
+    b[0] = tag;
+    b[1..9].copy_from_slice(&i.to_be_bytes());
+    let h = Hasher::hash(&b[..9]);
+    b[9..].copy_from_slice(&h[..23]);
+    b
+}
+fn index_of(b: &[u8]) -> u64 {
+    u64::from_be_bytes(b[1..9].try_into().unwrap())
+}
+const SHIFT: u64 = 1 << 32;
+
+struct Tables {
+    t: Vec<Table>,
+}
+
+fn parse_tables(t: &T) -> Tables {
+    Tables {
+        t: t.as_l().iter().map(|tb| tb.as_l().iter().map(|e| (e.as_l()[0].as_u64(), e.as_l()[1].as_u64())).collect()).collect(),
+    }
+}
+fn tables_t(ts: &[Table]) -> T {
+    T::l(ts.iter().map(|tb| T::l(tb.iter().map(|(k, a)| T::l(vec![T::n(*k), T::n(*a)])).collect())).collect())
+}
+
+fn chain_config() -> ChainConfig {
+    ChainConfig::local_testnet()
+}
+
+fn block(height: u32, da: u64, prev_root: Bytes32) -> Block {
+    Block::new(
+        PartialBlockHeader {
+            application: ApplicationHeader::<Empty> {
+                da_height: DaBlockHeight(da),
+                consensus_parameters_version: 0,
+                state_transition_bytecode_version: 0,
+                generated: Empty,
+            },
+            consensus: ConsensusHeader::<Empty> {
+                prev_root,
+                height: BlockHeight::from(height),
+                time: Tai64(4611686018427387914 + height as u64),
+                generated: Empty,
+            },
+        },
+        vec![],
+        &[],
+        Default::default(),
+    )
+    .expect("block")
+}
+
+/// the exported node: blocks 0..=latest committed one by one (each commit also carries a share
+/// of the state), then the off-chain rows
+fn build_source(rng: &mut Rng, latest: u32, da: u64, tb: &Tables) -> CombinedDatabase {
+    let db = CombinedDatabase::in_memory();
+    let mut on: Database<OnChain> = db.on_chain().clone();
+    let chain_id = chain_config().consensus_parameters.chain_id();
+    let base = base_asset();
+    let n_blocks = latest as u64 + 1;
+    let share = |i: u64, h: u64| i % n_blocks == h;
+    for h in 0..n_blocks {
+        let mut tx = on.write_transaction();
+        let b = block(h as u32, if h == latest as u64 { da } else { da.min(h) }, Bytes32::zeroed());
+        tx.storage_as_mut::<FuelBlocks>().insert(&BlockHeight::from(h as u32), &b.compress(&chain_id)).expect("block");
+        tx.storage_as_mut::<SealedBlockConsensus>()
+            .insert(&BlockHeight::from(h as u32), &Consensus::Genesis(Genesis::default()))
+            .expect("consensus");
+        for (i, aux) in tb.t[0].iter().filter(|e| share(e.0, h)) {
+            let coin: CompressedCoin = CompressedCoinV1 {
+                owner: Address::from([1 + rng.below(3) as u8; 32]),
+                amount: 1 + rng.below(1000),
+                asset_id: if rng.chance(1, 2) { base } else { AssetId::from([7u8; 32]) },
+                tx_pointer: TxPointer::new(BlockHeight::from(*aux as u32), rng.below(5) as u16),
+            }
+            .into();
+            let id = UtxoId::new(Bytes32::from(key(1, *i)), (*i % 3) as u16);
+            tx.storage_as_mut::<Coins>().insert(&id, &coin).expect("coin");
+        }
+        for (i, aux) in tb.t[1].iter().filter(|e| share(e.0, h)) {
+            let nonce = Nonce::from(key(2, *i));
+            let m: Message = MessageV1 {
+                sender: Address::from([1 + rng.below(3) as u8; 32]),
+                recipient: Address::from([1 + rng.below(3) as u8; 32]),
+                nonce,
+                amount: 1 + rng.below(1000),
+                data: if rng.chance(1, 2) { vec![] } else { vec![rng.below(256) as u8; 1 + rng.below(3) as usize] },
+                da_height: DaBlockHeight(*aux),
+            }
+            .into();
+            tx.storage_as_mut::<Messages>().insert(&nonce, &m).expect("message");
+        }
+        for (i, _) in tb.t[2].iter().filter(|e| share(e.0, h)) {
+            let payload = vec![rng.below(256) as u8; rng.below(40) as usize];
+            tx.storage_as_mut::<BlobData>().insert(&BlobId::from(key(3, *i)), payload.as_slice()).expect("blob");
+        }
+        for (c, _) in tb.t[3].iter().filter(|e| share(e.0, h)) {
+            let code = vec![rng.below(256) as u8; 1 + rng.below(30) as usize];
+            tx.storage_as_mut::<ContractsRawCode>().insert(&ContractId::from(key(4, *c)), code.as_slice()).expect("code");
+        }
+        for (c, aux) in tb.t[4].iter().filter(|e| share(e.0, h)) {
+            let info = ContractUtxoInfo::V1(ContractUtxoInfoV1 {
+                utxo_id: UtxoId::new(Bytes32::from(key(5, *c)), (*c % 3) as u16),
+                tx_pointer: TxPointer::new(BlockHeight::from(*aux as u32), rng.below(5) as u16),
+            });
+            tx.storage_as_mut::<ContractsLatestUtxo>().insert(&ContractId::from(key(4, *c)), &info).expect("utxo");
+        }
+        for (k, _) in tb.t[5].iter().filter(|e| share(e.0, h)) {
+            let (c, s) = (k / SHIFT, k % SHIFT);
+            let value = vec![rng.below(256) as u8; rng.below(70) as usize];
+            let sk = ContractsStateKey::new(&ContractId::from(key(4, c)), &Bytes32::from(key(6, s)));
+            tx.storage_as_mut::<ContractsState>().insert(&sk, value.as_slice()).expect("state");
+        }
+        for (k, _) in tb.t[6].iter().filter(|e| share(e.0, h)) {
+            let (c, s) = (k / SHIFT, k % SHIFT);
+            let ak = ContractsAssetKey::new(&ContractId::from(key(4, c)), &AssetId::from(key(7, s)));
+            tx.storage_as_mut::<ContractsAssets>().insert(&ak, &(1 + rng.below(1000))).expect("balance");
+        }
+        for (i, _) in tb.t[7].iter().filter(|e| share(e.0, h)) {
+            tx.storage_as_mut::<ProcessedTransactions>().insert(&Bytes32::from(key(8, *i)), &()).expect("ptx");
+        }
+        tx.commit().expect("commit block");
+    }
+    // off-chain rows that the snapshot carries as they are
+    let mut off: Database<OffChain> = db.off_chain().clone();
+    let mut tx = off.write_transaction();
+    for (i, _) in tb.t[7].iter() {
+        let id = Bytes32::from(key(8, *i));
+        let st = if i % 2 == 0 {
+            TransactionExecutionStatus::Submitted { time: Tai64(100 + i) }
+        } else {
+            TransactionExecutionStatus::SqueezedOut { reason: format!("r{i}") }
+        };
+        tx.storage_as_mut::<TransactionStatuses>().insert(&id, &st).expect("status");
+        let ok = OwnedTransactionIndexKey::new(&Address::from([1 + (i % 3) as u8; 32]), BlockHeight::from((i % n_blocks) as u32), *i as u16);
+        tx.storage_as_mut::<OwnedTransactions>().insert(&ok, &id).expect("owned tx");
+    }
+    for (i, _) in tb.t[1].iter().filter(|e| e.0 % 3 == 0) {
+        tx.storage_as_mut::<SpentMessages>().insert(&Nonce::from(key(9, *i)), &()).expect("spent");
+    }
+    tx.commit().expect("commit off-chain");
+    db
+}
+
+/// the modelled tables of an on-chain database, (key index, aux) in database order; the block
+/// Merkle tables by the rank their key has in `ranks` (the exported database)
+fn dump<St>(db: &Database<OnChain, St>, ranks: Option<&(HashMap<Vec<u8>, u64>, HashMap<Vec<u8>, u64>)>) -> (Vec<Table>, (HashMap<Vec<u8>, u64>, HashMap<Vec<u8>, u64>)) {
+    let mut t: Vec<Table> = vec![];
+    t.push(db.iter_all::<Coins>(None).map(|r| r.expect("coin")).map(|(k, c)| (index_of(k.tx_id().as_ref()), u32::from(c.tx_pointer().block_height()) as u64)).collect());
+    t.push(db.iter_all::<Messages>(None).map(|r| r.expect("msg")).map(|(k, m)| (index_of(k.as_ref()), m.da_height().0)).collect());
+    t.push(db.iter_all_keys::<BlobData>(None).map(|r| r.expect("blob")).map(|k| (index_of(k.as_ref()), 0)).collect());
+    t.push(db.iter_all_keys::<ContractsRawCode>(None).map(|r| r.expect("code")).map(|k| (index_of(k.as_ref()), 0)).collect());
+    t.push(db.iter_all::<ContractsLatestUtxo>(None).map(|r| r.expect("utxo")).map(|(k, u)| (index_of(k.as_ref()), u32::from(u.tx_pointer().block_height()) as u64)).collect());
+    t.push(db.iter_all_keys::<ContractsState>(None).map(|r| r.expect("state")).map(|k| (index_of(k.contract_id().as_ref()) * SHIFT + index_of(k.state_key().as_ref()), 0)).collect());
+    t.push(db.iter_all_keys::<ContractsAssets>(None).map(|r| r.expect("asset")).map(|k| (index_of(k.contract_id().as_ref()) * SHIFT + index_of(k.asset_id().as_ref()), 0)).collect());
+    t.push(db.iter_all_keys::<ProcessedTransactions>(None).map(|r| r.expect("ptx")).map(|k| (index_of(k.as_ref()), 0)).collect());
+    // raw keys of the Merkle tables
+    let raw = |column: fuel_core_storage::column::Column| -> Vec<Vec<u8>> {
+        db.iter_store_keys(column, None, None, IterDirection::Forward).map(|r| r.expect("key").to_vec()).collect()
+    };
+    use fuel_core_storage::structured_storage::TableWithBlueprint;
+    let mdata = raw(<FuelBlockMerkleData as TableWithBlueprint>::column());
+    let mmeta = raw(<FuelBlockMerkleMetadata as TableWithBlueprint>::column());
+    let own: (HashMap<Vec<u8>, u64>, HashMap<Vec<u8>, u64>) = (
+        mdata.iter().enumerate().map(|(i, k)| (k.clone(), i as u64)).collect(),
+        mmeta.iter().enumerate().map(|(i, k)| (k.clone(), i as u64)).collect(),
+    );
+    let rk = ranks.unwrap_or(&own);
+    t.push(mdata.iter().enumerate().map(|(j, k)| (*rk.0.get(k).unwrap_or(&(1_000_000 + j as u64)), 0)).collect());
+    t.push(mmeta.iter().enumerate().map(|(j, k)| (*rk.1.get(k).unwrap_or(&(1_000_000 + j as u64)), 0)).collect());
+    (t, own)
+}
+
+fn column_digest<D: DatabaseDescription, St>(db: &Database<D, St>, column: D::Column) -> u64 {
+    let mut h = Hasher::default();
+    for kv in db.iter_store(column, None, None, IterDirection::Forward) {
+        let (k, v) = kv.expect("iter");
+        h.input((k.len() as u64).to_be_bytes());
+        h.input(&k);
+        h.input((v.len() as u64).to_be_bytes());
+        h.input(&v[..]);
+    }
+    let d = h.finalize();
+    u64::from_be_bytes(d[..8].try_into().unwrap())
+}
+
+fn genesis_block(reader: &SnapshotReader) -> Block {
+    // as create_genesis_block: the new chain continues the exported one
+    let last = reader.last_block_config().expect("last block config");
+    block(
+        u32::from(last.block_height.succ().expect("height")),
+        last.da_block_height.0,
+        last.blocks_root,
+    )
+}
+
+pub fn run_c39(input: &T) -> T {
+    let input = input.clone();
+    catch(move || {
+        let f = input.as_l();
+        let enc = f[0].as_u64();
+        let ge = f[1].as_usize();
+        let gi = f[2].as_usize();
+        let latest = f[3].as_u32();
+        let da = f[4].as_u64();
+        let tb = parse_tables(&f[5]);
+        let mut rng = Rng::new(f[6].as_u64() ^ 0x3939);
+        let src = build_source(&mut rng, latest, da, &tb);
+        let (src_tables, ranks) = dump(src.on_chain(), None);
+        assert_eq!(src_tables, tb.t, "the source database does not hold the tables of the input");
+
+        // export
+        let dir = temp_dir();
+        let out = dir.clone();
+        let rt = runtime();
+        let exported = rt.block_on(async {
+            let writer = move || -> anyhow::Result<SnapshotWriter> {
+                if enc == 0 {
+                    Ok(SnapshotWriter::json(out.clone()))
+                } else {
+                    SnapshotWriter::parquet(out.clone(), ZstdCompressionLevel::Level1)
+                }
+            };
+            Exporter::new(src.clone(), chain_config(), writer, ge, Never).write_full_snapshot().await
+        });
+        let fail = |_why: &str| {
+            let _ = std::fs::remove_dir_all(&dir);
+            T::l(vec![T::b(false), tables_t(&vec![vec![]; 10]), T::l(vec![T::n(0u64), T::n(0u64)]), T::b(false), T::l(vec![])])
+        };
+        if exported.is_err() {
+            return fail("export");
+        }
+        // read back, regenesis into a fresh node
+        let meta = match SnapshotMetadata::read(&dir) {
+            Ok(m) => m,
+            Err(_) => return fail("metadata"),
+        };
+        let reader = match SnapshotReader::open_w_config(meta, gi) {
+            Ok(r) => r,
+            Err(_) => return fail("open"),
+        };
+        let last = reader.last_block_config().cloned();
+        let dst = CombinedGenesisDatabase {
+            on_chain: GenesisDatabase::<OnChain>::in_memory(),
+            off_chain: GenesisDatabase::<OffChain>::in_memory(),
+        };
+        let gblock = genesis_block(&reader);
+        let imported = rt.block_on(SnapshotImporter::import(dst.clone(), gblock, reader, StateWatcher::default()));
+        if imported.is_err() {
+            return fail("import");
+        }
+        let (dst_tables, _) = dump(dst.on_chain(), Some(&ranks));
+
+        // digests, column by column
+        use fuel_core_storage::column::Column as C;
+        use fuel_core::fuel_core_graphql_api::storage::Column as O;
+        let mut cols = vec![];
+        let mut on_eq = HashMap::new();
+        for c in enum_iterator::all::<<OnChain as DatabaseDescription>::Column>() {
+            let eq = column_digest(src.on_chain(), c) == column_digest(dst.on_chain(), c);
+            on_eq.insert(c.id(), eq);
+            cols.push(T::l(vec![T::n(c.id() as u64), T::b(eq)]));
+        }
+        let mut off_eq = HashMap::new();
+        for c in enum_iterator::all::<<OffChain as DatabaseDescription>::Column>() {
+            let eq = column_digest(src.off_chain(), c) == column_digest(dst.off_chain(), c);
+            off_eq.insert(c.id(), eq);
+            cols.push(T::l(vec![T::n(1000 + c.id() as u64), T::b(eq)]));
+        }
+        let mut compared_on = vec![
+            C::Coins, C::Messages, C::Blobs, C::ContractsRawCode, C::ContractsLatestUtxo, C::ContractsState, C::ContractsAssets,
+        ];
+        let mut compared_off = vec![];
+        if enc != 0 {
+            compared_on.extend([C::ProcessedTransactions, C::FuelBlockMerkleData, C::FuelBlockMerkleMetadata]);
+            compared_off.extend([O::TransactionStatus, O::TransactionsByOwnerBlockIdx, O::SpentMessages]);
+        }
+        let digests_ok = compared_on.iter().all(|c| on_eq[&c.id()]) && compared_off.iter().all(|c| off_eq[&c.id()]);
+        let _ = std::fs::remove_dir_all(&dir);
+        let (lh, lda) = match last {
+            Some(l) => (u32::from(l.block_height) as u64, l.da_block_height.0),
+            None => (u64::MAX, u64::MAX),
+        };
+        T::l(vec![T::b(true), tables_t(&dst_tables), T::l(vec![T::n(lh), T::n(lda)]), T::b(digests_ok), T::l(cols)])
+    })
+}
+
+// ---------------------------------------------------------------------------------------
+// generator
+
+pub fn gen_c39(rng: &mut Rng, n: u64, tier: &str) -> Vec<T> {
+    let mut cases = vec![];
+    let sizes: &[u64] = &[1, 2, 3, 7];
+    for i in 0..n {
+        let latest = rng.below(4);
+        let da = rng.below(5);
+        let big = tier == "thorough" && rng.chance(1, 4);
+        let m = if big { 16 } else { 7 };
+        let n_coins = rng.below(m);
+        let n_msgs = rng.below(m);
+        let n_blobs = rng.below(4);
+        let n_contracts = rng.below(4);
+        let n_ptx = rng.below(m);
+        let plain = |k: u64| -> Table { (0..k).map(|i| (i, 0)).collect() };
+        let coins: Table = (0..n_coins).map(|i| (i, rng.below(latest + 1))).collect();
+        let msgs: Table = (0..n_msgs).map(|i| (i, rng.below(da + 1))).collect();
+        let utxo: Table = (0..n_contracts).map(|c| (c, rng.below(latest + 1))).collect();
+        let mut state: Table = vec![];
+        let mut assets: Table = vec![];
+        for c in 0..n_contracts {
+            // contracts whose slots span several groups, contracts without slots
+            let ns = if rng.chance(1, 4) { 0 } else { rng.below(2 * m) };
+            let nb = rng.below(4);
+            state.extend((0..ns).map(|s| (c * SHIFT + s, 0)));
+            assets.extend((0..nb).map(|s| (c * SHIFT + s, 0)));
+        }
+        let n_blocks = latest + 1;
+        // binary Merkle mountain range over n leaves: 2n - popcount(n) nodes; metadata: one row
+        // per height and the "latest" row
+        let mdata = plain(2 * n_blocks - n_blocks.count_ones() as u64);
+        let mmeta = plain(n_blocks + 1);
+        let tables = vec![coins, msgs, plain(n_blobs), plain(n_contracts), utxo, state, assets, plain(n_ptx), mdata, mmeta];
+        let enc = i % 2;
+        let (ge, gi) = if i < 32 {
+            // every pair of group sizes for both encodings
+            (sizes[((i / 2) % 4) as usize], sizes[((i / 8) % 4) as usize])
+        } else {
+            (*rng.pick(sizes), *rng.pick(sizes))
+        };
+        cases.push(T::l(vec![
+            T::n(enc),
+            T::n(ge),
+            T::n(gi),
+            T::n(latest),
+            T::n(da),
+            tables_t(&tables),
+            T::n(rng.below(1 << 32)),
+        ]));
+    }
+    cases
 }
